@@ -179,7 +179,20 @@ def replay(steps, thresh_c, thresh_s):
                     res['diverged'] = (f'step {i} {lbl}: {key}: code='
                                        f'{got[key]!r} model={want[key]!r}')
                     break
-            if res['diverged'] or got['err']:
+            if got['err']:
+                break
+            if res['diverged']:
+                # the model no longer describes the run, but the schedule is
+                # still a schedule: the rest of it is carried out blindly
+                # (writes by the applications, deliveries of whatever is
+                # next) so that the monitors judge a complete execution
+                for lbl2, _ in steps[i + 1:]:
+                    if w.pair.lost:
+                        break
+                    try:
+                        w.do(lbl2)
+                    except Exception:       # pylint: disable=broad-except
+                        break
                 break
         w.drain()
         res['l1'] = w.l1()
